@@ -332,6 +332,12 @@ pub fn chunked(a: &[String]) -> Value {
         "no-final-chunk" => body.truncate(*offsets.last().unwrap()),
         "cut-after-first-chunk" => body.truncate(offsets[1.min(offsets.len() - 1)]),
         "flip-data-byte" => { let i = offsets[0] + format!("{:x}", chunks[0].len()).len() + 17 + 64 + 2; body[i] ^= 1; }
+        // bit 0x20 of the first alphabetic hex digit of the first chunk's signature: 'a'..'f' becomes 'A'..'F'
+        "upper-case-signature-char" => {
+            let start = offsets[0] + format!("{:x}", chunks[0].len()).len() + 17;
+            if let Some(k) = (start..start + 64).find(|k| body[*k].is_ascii_lowercase()) { body[k] ^= 0x20; }
+        }
+        "flip-signature-low-bit" => { let start = offsets[0] + format!("{:x}", chunks[0].len()).len() + 17; body[start] ^= 1; }
         _ => {}
     }
     let auth = format!("AWS4-HMAC-SHA256 Credential={AK}/{scope}, SignedHeaders=content-encoding;content-length;host;x-amz-content-sha256;x-amz-date;x-amz-decoded-content-length, Signature={seed}");
